@@ -219,3 +219,166 @@ class ResolveDependency:
         t = ev(model, self.text)
         return {'op': 'resolve_dependency', 'text': t, 'file_text': ev(model, self.world.text_lower_file[t]) if t < len(self.world.text_lower_file) else False,
                 'referrer': ev(model, self.referrer), 'prefer_types': ev(model, self.prefer)}
+
+# ---------------------------------------------------------------- graph state decoding (post-states of prune_types / segment)
+import re as _re
+
+class GraphView:
+    """read access to a ModuleGraph value of the interpreter by field name"""
+    def __init__(self, mir, graph_val, N):
+        self.mir, self.g, self.N = mir, graph_val, N
+    def fld(self, agg, struct, name):
+        idx = self.mir.structs[struct].index(name)
+        return agg.f[idx] if idx < len(agg.f) else None
+    @property
+    def kind(self): return self.fld(self.g, 'ModuleGraph', 'graph_kind').tag
+    @property
+    def slots(self): return self.fld(self.g, 'ModuleGraph', 'module_slots')
+    @property
+    def redirects(self): return self.fld(self.g, 'ModuleGraph', 'redirects')
+    @property
+    def imports(self): return self.fld(self.g, 'ModuleGraph', 'imports')
+    @property
+    def roots(self): return self.fld(self.g, 'ModuleGraph', 'roots')
+    @property
+    def has_node(self): return self.fld(self.g, 'ModuleGraph', 'has_node_specifier')
+    def slot_present(self, i): return self.slots.present[i]
+    def slot(self, i): return self.slots.vals[i]
+    def slot_kind(self, i): return self.slot(i).tag if self.slot(i) is not None else BV(0, 8)
+    def module(self, i):
+        s = self.slot(i)
+        return s.vars[0].f[0] if s is not None and 0 in s.vars and s.vars[0].f else None
+    def mod_kind(self, i):
+        m = self.module(i); return m.tag if m is not None else BV(0, 8)
+    def js(self, i):
+        m = self.module(i); return m.vars[0].f[0] if m is not None and 0 in m.vars and m.vars[0].f else None
+    def wasm(self, i):
+        m = self.module(i); return m.vars[2].f[0] if m is not None and 2 in m.vars and m.vars[2].f else None
+    def deps_of(self, i):
+        """[(selector, SlotMap)] dependency maps of module i by module kind"""
+        out = []
+        j, w = self.js(i), self.wasm(i)
+        if j is not None: out.append((EQ(self.mod_kind(i), BV(0, 8)), self.fld(j, 'JsModule', 'dependencies')))
+        if w is not None: out.append((EQ(self.mod_kind(i), BV(2, 8)), self.fld(w, 'WasmModule', 'dependencies')))
+        return out
+    def dep_fields(self, dep):
+        f = lambda n: self.fld(dep, 'Dependency', n)
+        return {'code': f('maybe_code'), 'type': f('maybe_type'), 'dyn': f('is_dynamic'), 'dts': f('maybe_deno_types_specifier')}
+    def res_fields(self, res):
+        """(kind tag, target id, range id) of a Resolution value"""
+        t, rid = BV(0, 8), BV(0, 16)
+        ok = res.vars.get(1)
+        if ok and ok.f and ok.f[0] is not None:
+            rr = ok.f[0].val if isinstance(ok.f[0], BoxV) else ok.f[0]
+            sp = self.fld(rr, 'ResolutionResolved', 'specifier'); rg = self.fld(rr, 'ResolutionResolved', 'range')
+            if isinstance(sp, UrlV): t = sp.id
+            if isinstance(rg, Agg) and z3.is_expr(rg.f[1]): rid = rg.f[1]
+        er = res.vars.get(2)
+        if er and er.f and er.f[0] is not None:
+            e = er.f[0].val if isinstance(er.f[0], BoxV) else er.f[0]
+            for vi, payload in e.vars.items():
+                for x in payload.f:
+                    if isinstance(x, Agg) and len(x.f) == 3 and z3.is_expr(x.f[1]): rid = IF(EQ(res.tag, BV(2, 8)), x.f[1], rid)
+        return res.tag, t, rid
+
+    def decode(self, model):
+        MT = self.mir.enums['MediaType']
+        def res(r):
+            if r is None: return None
+            k, t, rid = self.res_fields(r)
+            k = ev(model, k)
+            return None if k == 0 else ({'ok': ev(model, t), 'rid': ev(model, rid)} if k == 1 else {'err': True, 'rid': ev(model, rid)})
+        def deps(sm):
+            out = []
+            for p, key, val in zip(sm.present, sm.keys, sm.vals):
+                if not ev(model, p): continue
+                d = self.dep_fields(val)
+                out.append({'text': ev(model, key.id), 'code': res(d['code']), 'type': res(d['type']), 'dynamic': ev(model, d['dyn']),
+                            'deno_types': ev(model, d['dts'].tag) == 1 if isinstance(d['dts'], EnumV) else False})
+            return out
+        g = {'graph_kind': KINDS[ev(model, self.kind)], 'slots': {}, 'redirects': {}, 'has_node_specifier': ev(model, self.has_node)}
+        r = self.roots
+        g['roots'] = [ev(model, r.items[k]) for k in range(ev(model, r.len))]
+        g['imports'] = sum(1 for p in self.imports.present if ev(model, p))
+        for i in range(self.N):
+            if ev(model, self.redirects.present[i]): g['redirects'][str(i)] = ev(model, self.redirects.vals[i].id)
+            if not ev(model, self.slot_present(i)): continue
+            sk = ev(model, self.slot_kind(i))
+            if sk == 2: g['slots'][str(i)] = {'kind': 'pending'}
+            elif sk == 1: g['slots'][str(i)] = {'kind': 'err'}
+            else:
+                mk = ev(model, self.mod_kind(i))
+                kind = ['js', 'json', 'wasm', 'npm', 'node', 'external'][mk]
+                e = {'kind': kind}
+                if kind == 'js':
+                    j = self.js(i)
+                    e['deps'] = deps(self.fld(j, 'JsModule', 'dependencies'))
+                    e['media_type'] = MT[ev(model, self.fld(j, 'JsModule', 'media_type').tag)]
+                    td = self.fld(j, 'JsModule', 'maybe_types_dependency')
+                    e['types_dep'] = None
+                    if ev(model, td.tag) == 1:
+                        tdv = td.vars[1].f[0]
+                        e['types_dep'] = {'text': ev(model, self.fld(tdv, 'TypesDependency', 'specifier').id), 'res': res(self.fld(tdv, 'TypesDependency', 'dependency'))}
+                    if 'fast_check' in self.mir.structs['JsModule']:
+                        fc = self.fld(j, 'JsModule', 'fast_check')
+                        e['fast_check'] = None
+                        if fc is not None and isinstance(fc, EnumV) and ev(model, fc.tag) == 1:
+                            slot = fc.vars[1].f[0]
+                            if ev(model, slot.tag) == 1: e['fast_check'] = {'error': True}
+                            else:
+                                fm = slot.vars[0].f[0]; fm = fm.val if isinstance(fm, BoxV) else fm
+                                e['fast_check'] = {'deps': deps(self.fld(fm, 'FastCheckTypeModule', 'dependencies'))}
+                if kind == 'wasm': e['deps'] = deps(self.fld(self.wasm(i), 'WasmModule', 'dependencies'))
+                g['slots'][str(i)] = e
+        return g
+
+def normalize_graph_dump(d):
+    """bring the replay binary's graph dump into the shape of GraphView.decode"""
+    def text(t):
+        m = _re.search(r't(\d+)$', t) if isinstance(t, str) else None
+        return int(m.group(1)) if m else t
+    def deps(ds): return [{'text': text(x['text']), 'code': x['code'], 'type': x['type'], 'dynamic': x['dynamic'], 'deno_types': x['deno_types']} for x in ds]
+    g = {'graph_kind': d['graph_kind'], 'slots': {}, 'redirects': d['redirects'], 'has_node_specifier': d['has_node_specifier'], 'roots': d['roots'], 'imports': d['imports']}
+    for k, s in d['slots'].items():
+        kind = s.get('kind')
+        if kind in ('pending', 'err'): g['slots'][k] = {'kind': kind}
+        else:
+            e = {'kind': kind}
+            if kind == 'js':
+                e['deps'] = deps(s['deps']); e['media_type'] = s['media_type']
+                td = s.get('types_dep')
+                e['types_dep'] = {'text': text(td['text']), 'res': td['res']} if td else None
+                if 'fast_check' in s:
+                    fc = s['fast_check']
+                    e['fast_check'] = None if fc is None else ({'error': True} if 'error' in fc else {'deps': deps(fc['deps'])})
+            if kind == 'wasm': e['deps'] = deps(s['deps'])
+            g['slots'][k] = e
+    return g
+
+class PruneTypes:
+    """ModuleGraph::prune_types(&mut self) on a copy of the world; exposes the post-state"""
+    def __init__(self, eng, world):
+        self.world = world
+        self.root = Root(world.root.val, 'pruned-graph')
+        eng.call(eng.mir.find('ModuleGraph', 'prune_types'), [Ptr([(TRUE, (self.root, ()))])], TRUE)
+        self.post = GraphView(eng.mir, self.root.val, world.N)
+        self.ptr = Ptr([(TRUE, (self.root, ()))])
+        self.then = []
+    def decode(self, model): return {'graph': self.post.decode(model), 'then': [normalize_then(t.op_json(model), t.decode(model), self.post.mir) for t in self.then]}
+    def op_json(self, model): return {'op': 'prune_types', 'then': [t.op_json(model) for t in self.then]}
+
+def normalize_then(oj, d, mir):
+    from .harness import normalize_decoded
+    return normalize_decoded(oj, d, mir)
+
+class Segment:
+    """ModuleGraph::segment(&self, roots: &[Url]) with an arbitrary subset as roots (passed in id order)"""
+    def __init__(self, eng, world, sel):
+        self.world, self.sel = world, sel
+        slice_ = SeqV([(sel[i], UrlV(BV(i, 8))) for i in range(world.N)])
+        val = eng.call(eng.mir.find('ModuleGraph', 'segment'), [world.ptr, ref_to(slice_, 'segment-roots')], TRUE)
+        self.root = Root(val, 'segment-graph'); self.ptr = Ptr([(TRUE, (self.root, ()))])
+        self.post = GraphView(eng.mir, val, world.N)
+        self.then = []
+    def decode(self, model): return {'graph': self.post.decode(model), 'then': [normalize_then(t.op_json(model), t.decode(model), self.post.mir) for t in self.then]}
+    def op_json(self, model): return {'op': 'segment', 'roots': [i for i in range(self.world.N) if ev(model, self.sel[i])], 'then': [t.op_json(model) for t in self.then]}
